@@ -59,7 +59,7 @@ func NewH265Depacketizer(meta *codec.VideoMeta, w codec.FrameWriter) Depacketize
  */
 func (h265dp *h265Depacketizer) Depacketize(packet *Packet) (err error) {
 	payload := packet.Payload()
-	if len(payload) < 3 {
+	if len(payload) < 2 { // NAL unit header
 		return
 	}
 
@@ -118,6 +118,9 @@ func (h265dp *h265Depacketizer) depacketizeStap(packet *Packet) (err error) {
 func (h265dp *h265Depacketizer) depacketizeFu(packet *Packet) (err error) {
 	payload := packet.Payload()
 	rawDataOffset := 3 // 原始数据的偏移 = FU indicator + header
+	if len(payload) < rawDataOffset {
+		return
+	}
 
 	//  0 1 2 3 4 5 6 7
 	// +-+-+-+-+-+-+-+-+
